@@ -443,7 +443,7 @@ class Prop:
                     res = self.run_impl(case)
                     why = self.oracle(case, res)
                 except Exception as e:  # pragma: no cover
-                    why = None
+                    res, why = None, None
                 if why:
                     return case, res, why, n
         return None, None, None, n
@@ -491,6 +491,25 @@ def repo_head():
     rc, out, _, _ = sh(["git", "-C", REPO, "rev-parse", "HEAD"], 30)
     rc2, out2, _, _ = sh(["git", "-C", REPO, "status", "--porcelain", "--", "src"], 30)
     return out.strip() + ("+dirty" if out2.strip() else "")
+
+
+def has_nonfinite(obj):
+    """True if a (nested) JSON-able result contains a NaN or infinite float."""
+    if isinstance(obj, float):
+        return obj != obj or obj in (float("inf"), float("-inf"))
+    if isinstance(obj, dict):
+        return any(has_nonfinite(v) for v in obj.values())
+    if isinstance(obj, (list, tuple)):
+        return any(has_nonfinite(v) for v in obj)
+    return False
+
+
+def safe_oracle(prop, case, res):
+    """oracle verdict, never raising: an oracle that cannot evaluate a result is not a verdict"""
+    try:
+        return prop.oracle(case, res)
+    except Exception:
+        return None
 
 
 def safe_impl(prop, case):
@@ -557,10 +576,17 @@ def run_check(prop: Prop, tier: str, seed: int, replay: str | None = None):
 
     # 5. tie
     terms, idx = [], []
+    unrepresentable = []
     for i, (case, res) in enumerate(zip(cases, results)):
         if res is None:
             continue
-        t = prop.coq_case(case, res)
+        try:
+            t = prop.coq_case(case, res)
+        except Exception as e:
+            # the implementation's output cannot be expressed in the model's domain
+            # (e.g. NaN where the model has a rational): a disagreement, not a crash
+            unrepresentable.append((i, f"{type(e).__name__}: {e}"))
+            continue
         if t is not None:
             terms.append(t)
             idx.append(i)
@@ -568,7 +594,7 @@ def run_check(prop: Prop, tier: str, seed: int, replay: str | None = None):
     flags = []
     if terms:
         flags, tie_log = coq_eval_bools(pid, prop.preamble, terms)
-    disagree = [idx[j] for j, f in enumerate(flags) if f is False]
+    disagree = [idx[j] for j, f in enumerate(flags) if f is False] + [i for i, _ in unrepresentable]
     tie_errors = [idx[j] for j, f in enumerate(flags) if f is None]
 
     # 6. decision
@@ -582,14 +608,14 @@ def run_check(prop: Prop, tier: str, seed: int, replay: str | None = None):
             r, e = safe_impl(_prop, c)
             if e:
                 return False
-            w = _prop.oracle(c, r)
+            w = safe_oracle(_prop, c, r)
             return bool(w) and _prop.finding_key(c, r, w) == _key
 
         small = prop.shrink(cases[i], still_fails)
         r2, _ = safe_impl(prop, small)
         path = write_replay(pid, "counterexample", {
             "property": pid, "kind": "counterexample", "case": small,
-            "impl_output": r2, "oracle_verdict": prop.oracle(small, r2) or why,
+            "impl_output": r2, "oracle_verdict": safe_oracle(prop, small, r2) or why,
             "finding_key": key, "repo_head": repo_head(), "seed": seed,
         })
         violations.append(("counterexample", path, ""))
@@ -601,9 +627,12 @@ def run_check(prop: Prop, tier: str, seed: int, replay: str | None = None):
     if disagree:
         i = disagree[0]
         diag = None
-        d = prop.coq_diag(cases[i], results[i])
-        if d:
-            diag = coq_eval_raw(pid, prop.preamble, [d])
+        try:
+            d = prop.coq_diag(cases[i], results[i])
+            if d:
+                diag = coq_eval_raw(pid, prop.preamble, [d])
+        except Exception as e:
+            diag = f"(no model output: {type(e).__name__}: {e})"
         broken.append(("broken-tie", json.dumps({
             "case": cases[i], "impl_output": results[i], "model_output": diag,
             "n_disagree": len(disagree)}, default=str)))
@@ -623,7 +652,7 @@ def run_check(prop: Prop, tier: str, seed: int, replay: str | None = None):
         for c in seeds:
             r, e = safe_impl(prop, c)
             if not e:
-                w = prop.oracle(c, r)
+                w = safe_oracle(prop, c, r)
                 if w and prop.finding_key(c, r, w) not in open_keys:
                     found = (c, r, w, 0)
                     break
@@ -682,6 +711,7 @@ def run_check(prop: Prop, tier: str, seed: int, replay: str | None = None):
             "cases_compared": len(terms),
             "agree": sum(1 for f in flags if f is True),
             "disagree": len(disagree),
+            "impl_output_outside_model_domain": len(unrepresentable),
             "coq_errors": len(tie_errors),
         },
         "oracle": {"cases": len(cases), "violations": len(oracle_bad),
